@@ -55,9 +55,9 @@ func f4Stmts(d, l int, inSwitch bool) []string {
 }
 
 func f4Family(tier string) *goprog.Family {
-	d := 2
+	d := 3
 	if tier == "thorough" {
-		d = 3
+		d = 4
 	}
 	stmts := f4Stmts(d, 0, false)
 	return &goprog.Family{
